@@ -36,6 +36,7 @@ std::vector<uint8_t> unhex(const std::string &s);
 void capture_begin();
 std::string capture_end(size_t max_bytes);
 
+int mode_cpulist(int argc, char **argv);
 int mode_asm(int argc, char **argv);
 int mode_disasm(int argc, char **argv);
 int mode_codec(int argc, char **argv);
